@@ -97,6 +97,17 @@ func (bp BundlePart) Load() (b bpv7.Bundle, err error) {
 
 // calcExpirationDate for a Bundle.
 func calcExpirationDate(b bpv7.Bundle) time.Time {
+	// A bundle without a creation time (no clock at its source) lives for its lifetime minus its age from now on.
+	if b.PrimaryBlock.CreationTimestamp.IsZeroTime() {
+		if ageBlock, err := b.ExtensionBlock(bpv7.ExtBlockTypeBundleAgeBlock); err == nil {
+			age := ageBlock.Value.(*bpv7.BundleAgeBlock).Age()
+			if age >= b.PrimaryBlock.Lifetime {
+				return time.Now()
+			}
+			return time.Now().Add(time.Duration(b.PrimaryBlock.Lifetime-age) * time.Millisecond)
+		}
+	}
+
 	// TODO: check Bundle Age Block
 	return b.PrimaryBlock.CreationTimestamp.DtnTime().Time().Add(
 		time.Duration(b.PrimaryBlock.Lifetime) * time.Millisecond)
